@@ -10,6 +10,7 @@ bootstrap                  -> S<id> (onStartup HookRun) K<id> (EnableKubernetesB
 oracle bootstrap got=<…>
 run                        -> the startup executions hook/exit/ctx+ctx;…   (ctx: o | s<binding> | g<group>)
 oracle log <every execution of the run, also e<binding> (Event) and c (Schedule) contexts>
+oracle queues <the same log> <hook/binding/queue triples with a hook run, from the hook_run_seconds labels>
 ```
 -/
 namespace ShellOp.Drv.C06
@@ -18,18 +19,20 @@ open ShellOp ShellOp.Util ShellOp.Startup
 structure St where
   hooks : List Hook := []
   fails : List (Nat × List Bool) := []
+  queues : List (Nat × Nat × Nat) := []   -- (hook, binding, queue of the binding; 0 = main)
 
 def failsFn (l : List (Nat × List Bool)) (h : Nat) : List Bool :=
   match l.find? (·.1 == h) with
   | some (_, s) => s
   | none => []
 
-def parseBinding (s : String) : Option KBinding :=
+def parseBinding (s : String) : Option (KBinding × Nat) :=
   match s.splitOn ":" with
-  | [n, g, e] => do some { name := ← n.toNat?, group := ← g.toNat?, execSync := e == "1" }
+  | [n, g, e] => do some ({ name := ← n.toNat?, group := ← g.toNat?, execSync := e == "1" }, 0)
+  | [n, g, e, q] => do some ({ name := ← n.toNat?, group := ← g.toNat?, execSync := e == "1" }, ← q.toNat?)
   | _ => none
 
-def parseHook (toks : List String) : Option (Hook × List Bool) :=
+def parseHook (toks : List String) : Option (Hook × List Bool × List (Nat × Nat × Nat)) :=
   match toks with
   | id :: rest => do
     let id ← id.toNat?
@@ -41,7 +44,8 @@ def parseHook (toks : List String) : Option (Hook × List Bool) :=
     let os ← if os == "-" then some none else (int? os).map some
     let kube ← (strList kube).mapM parseBinding
     let fl := if fails == "-" then [] else fails.toList.map (· == '1')
-    some ({ name := id, v1 := v == "1", onStartup := os, kube := kube, sched := sched == "1" }, fl)
+    some ({ name := id, v1 := v == "1", onStartup := os, kube := kube.map (·.1), sched := sched == "1" }, fl,
+      kube.map (fun p => (id, p.1.name, p.2)))
   | _ => none
 
 def showCtx : Ctx → String
@@ -188,6 +192,20 @@ def checkLog (hooks : List Hook) (log : List OExec) : Option String := Id.run do
   if log.any (fun e => !(hooks.any (·.name == e.hook))) then return some "execution of an unknown hook"
   return none
 
+/-- "in the main queue": a hook run of a kubernetes binding labelled with another queue than main is the
+run of an Event of that binding (it has an Event execution in the log, and that queue is the binding's) —
+never a Synchronization. Triples (hook, binding, queue) come from the `hook_run_seconds` labels. -/
+def checkQueues (qs : List (Nat × Nat × Nat)) (log : List OExec) (triples : List (Nat × Nat × Nat)) : Option String :=
+  match triples.find? (fun t => t.2.2 != 0 &&
+      !(qs.contains t && log.any (fun e => e.hook == t.1 && e.ctxs.contains (.e t.2.1)))) with
+  | some t => some s!"hook {t.1} binding {t.2.1}: a run in queue q{t.2.2} that is not an Event of a binding of that queue"
+  | none => none
+
+def parseTriple (s : String) : Option (Nat × Nat × Nat) :=
+  match s.splitOn "/" with
+  | [h, b, q] => do some (← h.toNat?, ← b.toNat?, ← q.toNat?)
+  | _ => none
+
 /-- bootstrapped queue: onStartup tasks in order, then per hook alphabetically K (if kubernetes bindings) C (if schedules) -/
 def checkBootstrap (hooks : List Hook) (toks : List String) : Option String :=
   let ss := toks.filter (·.startsWith "S")
@@ -203,7 +221,7 @@ def step (st : St) (toks : List String) : St × String :=
   match toks with
   | "hook" :: rest =>
     match parseHook rest with
-    | some (h, fl) => ({ hooks := st.hooks ++ [h], fails := st.fails ++ [(h.name, fl)] }, "ok")
+    | some (h, fl, qs) => ({ hooks := st.hooks ++ [h], fails := st.fails ++ [(h.name, fl)], queues := st.queues ++ qs }, "ok")
     | none => (st, "bad-op")
   | ["order"] => (st, showNats ((getHooksInOrder st.hooks).map (·.name)))
   | ["bootstrap"] => (st, showStrs ((bootstrap st.hooks).map showTask))
@@ -228,6 +246,13 @@ def step (st : St) (toks : List String) : St × String :=
       | none => (st, "true")
       | some why => (st, "false " ++ why)
     | none => (st, "bad-op")
+  | ["oracle", "queues", l, t] =>
+    match parseLog l, ((t.splitOn ";").filter (· ≠ "")).mapM parseTriple with
+    | some log, some triples =>
+      match checkQueues st.queues log triples with
+      | none => (st, "true")
+      | some why => (st, "false " ++ why)
+    | _, _ => (st, "bad-op")
   | _ => (st, "bad-op")
 
 def suite : Suite St := { init := {}, step := step }
